@@ -332,7 +332,38 @@ def latest_lost_wakeup(req):
     return {'clause_holds': holds, 'observed': {'delivered': delivered, 'slot': list(node.next)}}
 
 
-SCENARIOS = {'map_async_overtake': map_async_overtake, 'map_async_bound': map_async_bound,
+def timed_window_awaitables_shared(req):
+    """F28: every arrival at timed_window is handed the awaitables of the last tick's emission (update returns self.last), and the
+    forwarder awaits them too.  With a consumer that returns a bare coroutine object (async def) the second await raises
+    RuntimeError('cannot reuse already awaited coroutine') in an emitter that did nothing wrong."""
+    import asyncio
+    from streamz import Stream
+    cls = (req.get('clause') or {}).get('cls') or 'timed_window'
+
+    async def main():
+        s = Stream(asynchronous=True)
+        got, errors = [], []
+
+        async def consumer(batch):
+            await asyncio.sleep(0.005)
+            got.append(batch)
+        node = s.timed_window(0.03) if cls == 'timed_window' else s.timed_window_unique(0.03, key=lambda x: x)
+        node.sink(consumer)
+        for i in range(6):
+            try:
+                await s.emit(i)
+            except Exception as e:
+                errors.append(repr(e))
+            await asyncio.sleep(0.02)
+        await asyncio.sleep(0.1)
+        return got, errors
+    got, errors = asyncio.run(main())
+    return {'clause_holds': not errors, 'observed': {'emits_that_raised': len(errors), 'first_error': errors[:1],
+                                                     'delivered_batches': repr(got)[:200]}}
+
+
+SCENARIOS = {'timed_window_awaitables_shared': timed_window_awaitables_shared,
+             'map_async_overtake': map_async_overtake, 'map_async_bound': map_async_bound,
              'zip_remove_upstream_stuck': zip_remove_upstream_stuck, 'source_restart_two_loops': source_restart_two_loops,
              'periodic_restart_two_loops': periodic_restart_two_loops,
              'kafka_reset_after_failed_watermark': kafka_reset_after_failed_watermark,
